@@ -128,6 +128,23 @@ def run(tier, seed):
                             for s_, fs_ in ctx.facts(g).sources(c.ops[0]):
                                 if Mg.match(("load", ("field", S, f, ANY)), s_, {}) is not None:
                                     released = c
+            if released is None:
+                # the address of the field is handed to a helper that releases what the cell holds: helper(&obj->field) with release(*param)
+                for g in cands:
+                    Mg = Matcher(g)
+                    for c in g.insts():
+                        if c.op != "call" or not c.callee or c.callee not in mod.functions or mod.functions[c.callee].decl:
+                            continue
+                        h = mod.functions[c.callee]
+                        for k, a in enumerate(c.ops[:len(h.params)]):
+                            if Mg.match(("field", S, f, ANY), a, {}) is None:
+                                continue
+                            Mh = Matcher(h)
+                            for c2 in h.insts():
+                                if c2.op == "call" and mod.callee_cname(c2) in RELEASERS and c2.ops:
+                                    for s_, fs_ in ctx.facts(h).sources(c2.ops[0]):
+                                        if Mh.match(("load", ("param", k)), s_, {}) is not None:
+                                            released = c2
             rep.check(r3, released is not None, "%s.%s (owning: %s) is released by %s" % (S, f, why[0], OWNERS[S]),
                       "%s:%s" % (ff.file, ff.line), "no release of this field in %s or the helpers it calls" % OWNERS[S],
                       function=OWNERS[S], obj="%s.%s" % (S, f))
